@@ -170,6 +170,7 @@ impl Cfg {
                 if self.if_funds != 5_000 * D { format!(" if{}", self.if_funds) } else { String::new() },
                 if self.vamm_if_other { " vamm-names-other-ifund" } else { "" }
             ) + if self.dec != 6 { " dec9" } else { "" }
+                + &(if self.funding_period != 3600 { format!(" fp{}", self.funding_period) } else { String::new() })
         )
     }
 }
@@ -766,6 +767,35 @@ impl World {
             }
         }
         amt
+    }
+    /// make the insurance fund hold exactly `target`: the surplus is moved to the (never trading) "bank" wallet,
+    /// a deficit is filled from "stranger". This builds the state of a deployment whose fund was funded
+    /// differently; only the collateral ledger differs from the given state. Returns false if the deficit
+    /// cannot be filled.
+    pub fn set_ifund_balance(&mut self, target: u128) -> bool {
+        let cur = self.bal(self.ifund.as_str());
+        let ifund = self.ifund.clone();
+        let (from, to, amt) = if cur > target {
+            (ifund, Addr::unchecked("bank"), cur - target)
+        } else if cur < target {
+            if self.bal("stranger") < target - cur {
+                return false;
+            }
+            (Addr::unchecked("stranger"), ifund, target - cur)
+        } else {
+            return true;
+        };
+        match self.token.clone() {
+            Some(t) => {
+                self.app
+                    .execute_contract(from, t, &cw20::Cw20ExecuteMsg::Transfer { recipient: to.to_string(), amount: Uint128::new(amt) }, &[])
+                    .unwrap();
+            }
+            None => {
+                self.app.send_tokens(from, to, &[Coin::new(amt, self.denom)]).unwrap();
+            }
+        }
+        true
     }
     pub fn total_supply(&self) -> Option<u128> {
         self.token.as_ref().map(|t| {
